@@ -58,6 +58,7 @@ def gen(seed, tier):
         for p in pats:
             if not p: continue
             probes.append(('noexceptsMds<md::mdspan<int, %s, NeLayout>>()' % cxx_ext(t, p), 'nem=' + '1' * 11, None))
+            probes.append(('memberTypesMds<md::mdspan<int, %s, SzLayout>>()' % cxx_ext(t, p), 'mtm=11111', None))
     return probes
 
 def sources(probes, ntu=16):
